@@ -121,7 +121,10 @@ class Tree:
             inner = self.uniq("inner_")
             tm, _ = self.module_text(imports=["from ..%s import *" % (m1 + "_up")] if rnd.random() < 0.5 else [])
             tu, _ = self.module_text()
-            self.add(d + m1 + "/__init__.py", "")
+            if rnd.random() < 0.5:
+                self.add(d + m1 + "/__init__.py", "")
+            else:
+                self.tags.append("graph:namespace-package")      # a directory without __init__.py on a dotted path
             self.add(d + m1 + "/" + inner + ".py", tm)
             self.add(d + m1 + "_up.py", tu)
             return "from .%s.%s import *" % (m1, inner)
